@@ -7,10 +7,14 @@ import (
 	"sort"
 	"strings"
 	"sync/atomic"
+	"time"
 
+	"github.com/aml-org/amf-custom-validator/internal/validator"
 	"github.com/aml-org/amf-custom-validator/pkg"
+	"github.com/aml-org/amf-custom-validator/pkg/events"
 	"github.com/aml-org/amf-custom-validator/verifh/core"
 	"github.com/open-policy-agent/opa/ast"
+	"github.com/open-policy-agent/opa/rego"
 	"github.com/open-policy-agent/opa/types"
 )
 
@@ -134,7 +138,7 @@ func sampleArg(t types.Type) string {
 
 func C08(e *core.Env) {
 	res := e.Res
-	res.Rule = "cases = (dangerous built-in, embedding position, call shape, debug flag): 5 built-ins x 16 positions (inline rego, regoModule, code/message form, under a property path, under nested, nested + property, and / or+not / if / then / else only / else + or + nested code-message / atLeast, rego_extensions helper called / unused / as a complete rule) x up to 10 call shapes (statement, array and set comprehension, after a negation, every, nested as an argument, function value of a `with`, after a future keyword used as a variable name - where any rejection counts) x debug in {false, true}; each profile must be rejected by CompileProfile and by Validate, with zero outbound HTTP attempts (recording transport); exhaustive over the listed sets; " +
+	res.Rule = "cases = (dangerous built-in, embedding position, call shape, debug flag): 5 built-ins x 16 positions (inline rego, regoModule, code/message form, under a property path, under nested, nested + property, and / or+not / if / then / else only / else + or + nested code-message / atLeast, rego_extensions helper called / unused / as a complete rule) x up to 10 call shapes (statement, array and set comprehension, after a negation, every, nested as an argument, function value of a `with`, after a future keyword used as a variable name - where any rejection counts) x debug in {false, true}; each profile must be rejected by CompileProfile and by Validate, with zero outbound HTTP attempts (recording transport); exhaustive over the listed sets; interleavings: 5 built-ins x 3 positions x 5 stage events of the probing compilation at which the listener runs a complete compilation and validation of an innocent profile, and GenerateRego + CompileRego called directly afterwards: still rejected; " +
 		"plus one well-typed probing profile per built-in of the linked engine (187): the set rejected as unsafe must equal the deny-list read from the source; non-trivial = every case; distinct by (built-in, position, shape, debug)"
 	var hits int64
 	http.DefaultTransport = recordingTransport{&hits}
@@ -203,6 +207,68 @@ func C08(e *core.Env) {
 	}
 	if h := atomic.LoadInt64(&hits); h != 0 {
 		res.Violate("impl-violates-property", fmt.Sprintf("%d outbound HTTP attempts were made while compiling / validating the probing profiles", h), map[string]any{"attempts": h})
+	}
+	// other calls in between: at each stage event of the compilation of a probing profile, the listener runs a complete
+	// compilation and validation of an innocent profile (the probing call is blocked on its event meanwhile); and the two
+	// halves of a compilation called directly (GenerateRego, CompileRego) after other compilations have completed
+	for _, b := range builtins {
+		for _, pos := range []string{"inline-rego", "under-nested-prop", "helper-rule"} {
+			profile := c08Positions(c08Calls[b])[pos]
+			for _, stage := range []events.EventType{events.ProfileParsingStart, events.ProfileParsingDone, events.RegoGenerationStart, events.RegoGenerationDone, events.RegoCompilationStart} {
+				ch := make(chan events.Event)
+				fin := make(chan struct{})
+				go func() {
+					defer close(fin)
+					for ev := range ch {
+						if ev.EventType == stage {
+							pkg.CompileProfile(PoolProfileMin, false, nil)
+							pkg.Validate(PoolProfileLevels, data, false, nil)
+						}
+					}
+				}()
+				var cerr error
+				var q *rego.PreparedEvalQuery
+				func() {
+					defer func() {
+						if r := recover(); r != nil {
+							cerr = fmt.Errorf("panic: %v", r)
+						}
+					}()
+					q, cerr = pkg.CompileProfile(profile, false, &ch)
+				}()
+				select {
+				case <-fin:
+				case <-time.After(5 * time.Second):
+				}
+				if cerr == nil {
+					replay := map[string]any{"builtin": b, "position": pos, "profile": profile, "data": data,
+						"schedule": "CompileProfile(profile) with an event channel; when the listener receives " + eventName(stage) + " it runs CompileProfile and Validate of an innocent profile to completion, then lets the call go on", "innocent_profile": PoolProfileMin}
+					if q != nil {
+						out, verr := pkg.ValidateCompiled(q, data, false, nil)
+						replay["report"] = core.Trunc(out, 600)
+						replay["validate_error"] = fmt.Sprint(verr)
+					}
+					replay["outbound_http_attempts"] = atomic.LoadInt64(&hits)
+					res.Violate("impl-violates-property", fmt.Sprintf("a profile calling %s (%s) is accepted when another profile is compiled during its %s event", b, pos, eventName(stage)), replay)
+				}
+				res.Case(fmt.Sprintf("interleaved|%s|%s|%s", b, pos, eventName(stage)), true)
+				res.Count("stream=interleaved-compilation")
+			}
+			// the two halves called directly
+			unit, gerr := validator.GenerateRego(profile, false, nil)
+			if gerr == nil {
+				_, cerr := validator.CompileRego(unit, nil)
+				if cerr == nil {
+					res.Violate("impl-violates-property", fmt.Sprintf("the generated code of a profile calling %s (%s) is accepted by CompileRego called directly", b, pos),
+						map[string]any{"builtin": b, "position": pos, "profile": profile, "history": "many compilations in this process, then GenerateRego(profile) and CompileRego(unit) called directly"})
+				}
+			}
+			res.Case(fmt.Sprintf("direct-halves|%s|%s", b, pos), true)
+			res.Count("stream=direct-halves")
+		}
+	}
+	if h := atomic.LoadInt64(&hits); h != 0 {
+		res.Violate("impl-violates-property", fmt.Sprintf("%d outbound HTTP attempts were made during the interleaved compilations", h), map[string]any{"attempts": h})
 	}
 	// every built-in of the linked engine: which ones does the compile step refuse as unsafe?
 	deny := map[string]bool{}
